@@ -1231,6 +1231,17 @@ func (c *Context) integerPower(d, x *Decimal, y *BigInt) (Condition, error) {
 
 	var n Decimal
 	n.Set(x)
+	if neg {
+		// When 1/x is exactly representable at this precision (x is a product
+		// of powers of 2, 5 and 10), raise that instead: the power is then
+		// exact exactly when x**y is, whereas x**|y| may need rounding although
+		// its reciprocal does not (0.5**-30 = 2**30).
+		var inv Decimal
+		if res, err := c.Quo(&inv, decimalOne, x); err == nil && !res.Inexact() {
+			n.Set(&inv)
+			neg = false
+		}
+	}
 	z := d
 	z.Set(decimalOne)
 	ed := MakeErrDecimal(c)
